@@ -23,7 +23,7 @@ def run(tier):
         # (A) character alphabet, strict options, reusable parser: every string up to L
         ["chars", "L=%d" % (6 if q else 7), "opts=0", "entries=1"],
         # every entry point (parser, parse, reader, ojson, wchar_t, istream) x every decode-option set
-        ["chars", "L=%d" % (4 if q else 5), "opts=" + ALL_OPTS, "entries=%d" % ALL_ENTRIES],
+        ["chars", "L=4", "opts=" + ALL_OPTS, "entries=%d" % ALL_ENTRIES],
         # one option deviating at a time (and comments+trailing together), one length further
         ["chars", "L=%d" % (5 if q else 6), "from=%d" % (5 if q else 6), "opts=1,2,3,4,8,16", "entries=1"],
         # token alphabet (comments, escapes, surrogate pairs, numbers, literals)
@@ -33,6 +33,9 @@ def run(tier):
         ["comments", "L=%d" % (5 if q else 6), "opts=1", "entries=%d" % ALL_ENTRIES],
         ["tokens", "L=%d" % (4 if q else 5), "opts=" + ALL_OPTS, "entries=%d" % ALL_ENTRIES],
     ]
+    if not q:
+        # one length further through every entry point: strict, each option alone, all options together
+        stages.insert(2, ["chars", "L=5", "from=5", "opts=0,1,2,4,8,16,3,31", "entries=%d" % ALL_ENTRIES])
     for st in stages:
         ck.add(runner.run_slices(b, st, nslices=runner.NCPU * 4))
     # (B) product search with the reference pushdown automaton
@@ -44,6 +47,7 @@ def run(tier):
                "an independently written RFC 8259 recursive-descent reference (accept/reject and value as model value). "
                "non-trivial = (text, option set) pairs the reference accepts. (B) BFS over pairs (json_parser private "
                "state fed one character per update(), reference pushdown automaton state), nesting depth <= 3.")
+    ck.rule += " Stages completed (alphabet, max length L, option-set indices, entry-point mask): " + "; ".join(" ".join(st) for st in stages) + "; B depth=3."
     ck.assumptions = [
         "escapes denoting lone or mis-paired surrogates and comments after the root value are outside the statement: abstained",
         "numeric values at the edge of the double range (strtod ERANGE) are judged by C04, not here",
